@@ -4,6 +4,10 @@ package connectconformance
 
 import (
 	"errors"
+	"fmt"
+	"os"
+	"path/filepath"
+	"sync"
 
 	"connectrpc.com/conformance/internal"
 	conformancev1 "connectrpc.com/conformance/internal/gen/proto/go/connectrpc/conformance/v1"
@@ -87,4 +91,51 @@ func VerifC04Report(total int, cases []VerifC04Case) (bool, []string) {
 	printer := &internal.SimplePrinter{}
 	ok := res.report(printer)
 	return ok, printer.Messages
+}
+
+type verifC04Printer struct {
+	mu    sync.Mutex
+	lines []string
+}
+
+func (p *verifC04Printer) Printf(msg string, args ...any) {
+	p.mu.Lock()
+	defer p.mu.Unlock()
+	p.lines = append(p.lines, fmt.Sprintf(msg, args...))
+}
+
+func (p *verifC04Printer) PrefixPrintf(prefix, msg string, args ...any) {
+	p.Printf(prefix+": "+msg, args...)
+}
+
+// VerifC04Run calls the real Run (client mode: the given client command against the in-process
+// reference server) on a suite and configuration written into dir, and returns Run's verdict,
+// its error and everything printed to the log printer.
+func VerifC04Run(dir string, clientCommand []string, suiteYAML, cfgYAML string, knownFailing, knownFlaky []string) (bool, string, []string) {
+	suitePath := filepath.Join(dir, "suite.yaml")
+	cfgPath := filepath.Join(dir, "config.yaml")
+	if err := os.WriteFile(suitePath, []byte(suiteYAML), 0o600); err != nil {
+		return false, "verif: " + err.Error(), nil
+	}
+	if err := os.WriteFile(cfgPath, []byte(cfgYAML), 0o600); err != nil {
+		return false, "verif: " + err.Error(), nil
+	}
+	logPrinter, errPrinter := &verifC04Printer{}, &verifC04Printer{}
+	ok, err := Run(&Flags{
+		ConfigFile:           cfgPath,
+		TestFiles:            []string{suitePath},
+		KnownFailingPatterns: knownFailing,
+		KnownFlakyPatterns:   knownFlaky,
+		ClientCommand:        clientCommand,
+		MaxServers:           1,
+		Parallelism:          1,
+		ServerBind:           "127.0.0.1",
+	}, logPrinter, errPrinter)
+	errText := ""
+	if err != nil {
+		errText = err.Error()
+	}
+	logPrinter.mu.Lock()
+	defer logPrinter.mu.Unlock()
+	return ok, errText, append([]string{}, logPrinter.lines...)
 }
